@@ -69,6 +69,17 @@ type c17Meta struct {
 	Fault    string `json:"fault,omitempty"` // the API read call of this handler invocation that fails
 }
 
+// c17CollideSpec: the end users of two private backends send requests (carrying agent-protocol header names with
+// the same values) at the same time; only backend A's agent lists, fetches and answers.
+type c17CollideSpec struct {
+	A          e3Call `json:"a"`
+	B          e3Call `json:"b"`
+	BackendA   string `json:"backend_a"`
+	AgentA     string `json:"agent_a"`
+	BackendB   string `json:"backend_b"`
+	AnswerBody string `json:"answer_body"`
+}
+
 // e3Fault fails the Nth call of service.method made by one handler invocation.
 type e3Fault struct {
 	Service string `json:"service"`
@@ -78,13 +89,14 @@ type e3Fault struct {
 }
 
 type c17Case struct {
-	Faults []e3Fault `json:"faults,omitempty"`
-	Burst  []e3Call  `json:"burst,omitempty"` // client requests issued all at once
-	I      int       `json:"i"`
-	Call   e3Call    `json:"call"`
-	Keep   bool      `json:"keep,omitempty"`
-	Until  bool      `json:"until,omitempty"`
-	Meta   c17Meta   `json:"meta"`
+	Faults  []e3Fault       `json:"faults,omitempty"`
+	Burst   []e3Call        `json:"burst,omitempty"` // client requests issued all at once
+	Collide *c17CollideSpec `json:"collide,omitempty"`
+	I       int             `json:"i"`
+	Call    e3Call          `json:"call"`
+	Keep    bool            `json:"keep,omitempty"`
+	Until   bool            `json:"until,omitempty"`
+	Meta    c17Meta         `json:"meta"`
 }
 
 type c17Req struct {
@@ -368,6 +380,35 @@ func c17GenCases(rng *rand.Rand, wd *c17World, keepFrac float64, history bool) {
 				}
 				wd.add(c)
 			}
+		}
+	}
+
+	// two end users of different private backends in flight at once, their requests carrying agent-protocol
+	// header names with the same values; only the first backend's agent works
+	var priv []*c17B
+	seenUser := map[string]bool{}
+	for _, b := range wd.Bs {
+		if b.Rec.EndUser != "allUsers" && !seenUser[b.Rec.EndUser] {
+			seenUser[b.Rec.EndUser] = true
+			priv = append(priv, b)
+		}
+	}
+	if len(priv) >= 2 {
+		for v := 0; v < 2; v++ {
+			ba, bb := priv[v%2], priv[(v+1)%2]
+			mk := func(b, other *c17B, tag string) e3Call {
+				h := map[string]string{hdrRequest: fmt.Sprintf("shared-id-%s-%d", w, v)}
+				if v == 1 {
+					h[hdrBackend], h[hdrUser] = other.Rec.ID, other.Rec.EndUser
+				}
+				return e3Call{Module: "default", Method: "GET", Path: escPath(b.Rec.PathPrefixes[len(b.Rec.PathPrefixes)-1] + "collide/" + tag + "-" + w), AEUser: b.Rec.EndUser,
+					ReqID: fmt.Sprintf("cl-%s-col%d-%s", w, v, tag), Headers: h}
+			}
+			c := &c17Case{Meta: c17Meta{Kind: "user-collide", Endpoint: "client", Ident: []string{"same-request-id-header", "same-request-id-and-spoofed-backend-user-headers"}[v]}}
+			c.Collide = &c17CollideSpec{A: mk(ba, bb, "ofA"), B: mk(bb, ba, "ofB"), BackendA: ba.Rec.ID, AgentA: ba.Rec.BackendUser, BackendB: bb.Rec.ID,
+				AnswerBody: fmt.Sprintf("answer-produced-by-%s-%s-%d", ba.Rec.ID, w, v)}
+			c.Meta.Email = ba.Rec.EndUser
+			wd.add(c)
 		}
 	}
 
@@ -697,6 +738,22 @@ type c17Result struct {
 	Hung     bool                `json:"hung"`
 	ListedIn []string            `json:"listed_in"`
 	Fired    int                 `json:"fault_fired"`
+	Collide  bool                `json:"collide"`
+	AListed  []string            `json:"a_listed"`
+	AAgent   []struct {
+		ID          string `json:"id"`
+		FetchStatus int    `json:"fetch_status"`
+		FetchUser   string `json:"fetch_user"`
+		FetchBody   string `json:"fetch_body"`
+		PostStatus  int    `json:"post_status"`
+	} `json:"a_agent"`
+	AStatus  int      `json:"a_status"`
+	ABody    string   `json:"a_body"`
+	AHung    bool     `json:"a_hung"`
+	BStatus  int      `json:"b_status"`
+	BBody    string   `json:"b_body"`
+	BHung    bool     `json:"b_hung"`
+	BPending []string `json:"b_pending"`
 	Burst    []struct {
 		ReqID    string   `json:"req_id"`
 		User     string   `json:"user"`
@@ -1075,6 +1132,36 @@ func (wd *c17World) judge(r *core.Run, c *c17Case, res *c17Result, st *c17State)
 				viol("admin-"+m.Endpoint+"-fails", fmt.Sprintf("status %d", res.Status))
 			}
 		}
+	case "user-collide":
+		sp := c.Collide
+		if res.AHung || res.BHung {
+			viol("handler-hangs:user:client", "a client handler did not return")
+		}
+		if strings.Contains(res.BBody, sp.AnswerBody) || res.BStatus/100 == 2 {
+			viol("end-user-received-another-backends-response", fmt.Sprintf("end user %q (backend %q, whose agent never ran) received status %d %q - the answer backend %q's agent produced for %q", sp.B.AEUser, sp.BackendB, res.BStatus, core.Trunc(res.BBody, 80), sp.BackendA, sp.A.AEUser))
+		}
+		answered := len(res.AAgent) > 0
+		for _, a := range res.AAgent {
+			if a.FetchStatus == 200 {
+				if strings.Contains(a.FetchBody, "ofB-"+wd.ID) { // (the agent also sees its backend's planted requests: those are its own)
+					viol("agent-fetched-another-backends-request", fmt.Sprintf("backend %q's agent was handed %q", sp.BackendA, core.Trunc(a.FetchBody, 120)))
+				}
+				if strings.Contains(a.FetchBody, "ofA-"+wd.ID) && a.FetchUser != sp.A.AEUser {
+					viol("fetch-wrong-user-header", fmt.Sprintf("request of %q reported to the agent as issued by %q", sp.A.AEUser, a.FetchUser))
+				}
+			}
+			answered = answered && a.FetchStatus == 200 && a.PostStatus == 200
+		}
+		for _, id := range res.BPending {
+			for _, a := range res.AListed {
+				if id == a && !answered {
+					_ = id // the same ID pending for two backends is C01/C19 territory; judged here only through its effects
+				}
+			}
+		}
+		if answered && (res.AStatus != 200 || res.ABody != sp.AnswerBody) {
+			viol("end-user-did-not-receive-own-backends-response", fmt.Sprintf("backend %q's agent answered %v; its end user got %d %q", sp.BackendA, res.AListed, res.AStatus, core.Trunc(res.ABody, 80)))
+		}
 	case "user-burst":
 		for _, b := range res.Burst {
 			if b.Hung {
@@ -1196,7 +1283,7 @@ func (c *c17Case) class() string {
 
 // C17 — who may act as agent, user and admin.
 func C17(r *core.Run) {
-	r.SetRule("worlds of 1-3 registered backends (distinct/shared agent accounts, per-user/shared end users, plain and exotic IDs, IDs related across a separator (B2 = B1<sep>word for sep in : / | \" space . % \\) with request IDs crafted so that (backend, request ID) read across the separator names another backend's request, pending and answered requests with planted secrets) x caller identity {no OAuth, stranger, OAuth admin that is no agent, each agent} x endpoint {pending, request, response} x named backend {each, unknown, absent} x request ID {pending/answered of each backend, unknown, absent}; admin API {list, add, takeover, garbage, delete, other methods/paths} x {App Engine admin, OAuth admin, plain user, agent, nobody} with follow-up calls on the resulting state; end users x paths through the client handler; scripted histories (agent works, the same backend ID is registered again for another agent account and end user, old and new agent on every endpoint, former and new end user through the client handler, unregister, original registration restored) and random-order histories, both judged against an evolving model of who is registered; the cross-backend, unknown-ID and unauthorised agent calls repeated with one failing store read each (k-th datastore Get / memcache Get / RunQuery of that handler invocation, internal error or timeout: acceptance and foreign writes stay forbidden, 4xx/5xx are admissible); every call goes through appengine's handleHTTP and the app's routing closure; class = (kind, endpoint, identity class, named-backend class, request-ID class, history?)")
+	r.SetRule("worlds of 1-3 registered backends (distinct/shared agent accounts, per-user/shared end users, plain and exotic IDs, IDs related across a separator (B2 = B1<sep>word for sep in : / | \" space . % \\) with request IDs crafted so that (backend, request ID) read across the separator names another backend's request, pending and answered requests with planted secrets) x caller identity {no OAuth, stranger, OAuth admin that is no agent, each agent} x endpoint {pending, request, response} x named backend {each, unknown, absent} x request ID {pending/answered of each backend, unknown, absent}; admin API {list, add, takeover, garbage, delete, other methods/paths} x {App Engine admin, OAuth admin, plain user, agent, nobody} with follow-up calls on the resulting state; end users x paths through the client handler (also: owner/other-user alternations and concurrent bursts on private prefixes; two users of different private backends in flight with client-supplied X-Inverting-Proxy-Request-ID / -Backend-ID / -User-ID headers of equal values while only one backend's agent answers - the other user must not receive that answer); scripted histories (agent works, the same backend ID is registered again for another agent account and end user, old and new agent on every endpoint, former and new end user through the client handler, unregister, original registration restored) and random-order histories, both judged against an evolving model of who is registered; the cross-backend, unknown-ID and unauthorised agent calls repeated with one failing store read each (k-th datastore Get / memcache Get / RunQuery of that handler invocation, internal error or timeout: acceptance and foreign writes stay forbidden, 4xx/5xx are admissible); every call goes through appengine's handleHTTP and the app's routing closure; class = (kind, endpoint, identity class, named-backend class, request-ID class, history?)")
 	r.Assume("/cron/delete is executed but not judged (documented as restricted by app.yaml); an authorised call reading or writing keys in its own backend's namespace that merely contain a caller-supplied foreign request ID is not counted as touching the other backend; status codes for unknown/absent request IDs are only required to be 4xx; client requests are cut short once queued (incoming context cancelled) instead of waiting 30 s")
 	bin := r.MustBuild(e3Build(r))
 	rng := r.Rand("c17")
